@@ -267,3 +267,54 @@ def mutate_tree(rng, t, depth=3):
     if isinstance(t, str) and t in T.PLACEHOLDERS:
         return valid_value(rng, t) if r < 0.8 else rng.choice(STR_POOL)
     return valid_value(rng, t)
+
+
+# ----------------------------------------------------------------------------------------------
+# name-aware unknown keys (LESSONS 3: names equal to / contained in markers and keywords)
+# ----------------------------------------------------------------------------------------------
+def substrings(w):
+    return {w[i:j] for i in range(len(w)) for j in range(i + 1, len(w) + 1)}
+
+
+def vocabulary(defs):
+    """every string the intake code path uses as a key, level name or omit key: level names, omit keys,
+    special keys, and every key of every default tree"""
+    words = {"simulation_settings", "virtual_world", "programs", "methods", "outputs"} | set(SPECIAL)
+    for om in OMIT.values():
+        words |= set(om)
+
+    def keys(t):
+        if isinstance(t, dict):
+            for k, v in t.items():
+                if isinstance(k, str):
+                    words.add(k)
+                keys(v)
+
+    for t in defs.values():
+        keys(t)
+    return words
+
+
+def derived_unknown_names(rng, defs, level_omit, budget):
+    """unknown-key candidates derived from the vocabulary:
+      * EVERY substring (prefixes, suffixes, infixes, single characters) of every omit key and level
+        name, plus case variants of those words and the empty string - always all of them for the omit
+        keys of the level at hand, the rest up to `budget` (None = all);
+      * prefixes / suffixes / case variants of a sample of the other keys.
+    The caller filters out names that are keys of the default dictionary at the node."""
+    core_words = {"programs", "methods", "default_parameters", "quantification_parameters",
+                  "simulation_settings", "virtual_world", "outputs", "parameter_level", "version"}
+    must = {""}
+    for w in level_omit:
+        must |= substrings(w) | {w.upper(), w.capitalize(), w + "s", w + "_", "_" + w, " " + w}
+    more = set()
+    for w in core_words:
+        more |= substrings(w) | {w.upper(), w.capitalize(), w[:-1], w + "s"}
+    voc = sorted(vocabulary(defs) - core_words)
+    for w in (voc if budget is None else rng.sample(voc, min(len(voc), 12))):
+        more |= {w[: max(1, len(w) // 2)], w[len(w) // 2:], w[:-1], w[1:], w.upper(), w.capitalize(), w + "s"}
+    more -= must
+    more = sorted(more)
+    if budget is not None and len(more) > budget:
+        more = rng.sample(more, budget)
+    return sorted(must) + more
